@@ -14,7 +14,7 @@ INFO = {
                    "get() calls, as the client does), the client draws 3 values per level from each stream and the sketch "
                    "consumes 3; (K) the leaf/inner selection predicate is `level == bits - 1` / `level < bits - 1` at every site; "
                    "(G) the IDPF admits prefixes of every length 1..=bits; (V) the admissibility predicate for sequences of aggregation "
-                   "parameters has the specification's shape (shared with C20). The sketch algebra, IDPF correctness and the "
+                   "parameters has the specification's shape (shared with C20). (I) IdpfInput::from_bytes is the whole MSB-first bit view of its argument; the ping-pong driver rules of C12 are run as well. The sketch algebra, IDPF correctness and the "
                    "heavy-hitters result are NOT decided.",
     "trusted_base": ["rustc type checker and MIR construction (nightly)", "sa/ppa.py std models and field table", "rules/ppa_reviewed.py"],
     "assumptions": ["A1", "field arithmetic is correct (C09 not decided)"],
